@@ -530,4 +530,12 @@ private def w4 : World :=
                                                    aux := { handler := true, started := true, status := 200 } } else none }
 example : (w4.slot 0).isSome = true ∧ (w4.auxOf 0).started = true ∧ (w4.auxOf 0).headSent = false := by decide
 
+-- c11_load_exact / c11_load_nonneg_zero_idle also cover requests that gw_check_extension() refuses
+-- AFTER it chose a host (gw_upgrade_policy(): HTTP/2 extended CONNECT, 405): such an arrival is a
+-- history like any other; it ends with status 405, an empty slot and no load taken
+example : (run w0 [.arrive 0 1 { upg := ['c'] }]).slot 0 = none ∧
+    ((run w0 [.arrive 0 1 { upg := ['c'] }]).host 0).load = 0 ∧
+    (run w0 [.arrive 0 1 { upg := ['c'] }]).log.any
+      (fun e => match e with | Ev.fin 0 405 false false false => true | _ => false) = true := by decide
+
 end LtVerif.C11
